@@ -300,6 +300,34 @@ func emitC15Order(t *tr) {
 }
 
 func emitC16Order(t *tr) {
+	// the ports the challenge solvers fall back to (getHTTPPort / getTLSALPNPort)
+	t.emitZ("http_challenge_port", "HTTPChallengePort")
+	t.emitZ("tlsalpn_challenge_port", "TLSALPNChallengePort")
+	for _, x := range []struct{ fn, base, glob, alt, coq string }{
+		{"ACMEIssuer.getHTTPPort", "HTTPChallengePort", "HTTPPort", "iss.AltHTTPPort", "c16_http_port_shape"},
+		{"ACMEIssuer.getTLSALPNPort", "TLSALPNChallengePort", "HTTPSPort", "iss.AltTLSALPNPort", "c16_tlsalpn_port_shape"}} {
+		// use := <base>; if <glob> > 0 && <glob> != <base> { use = <glob> }; if <alt> > 0 { use = <alt> }; return use
+		fd := t.funcs[x.fn]
+		ok := fd != nil && fd.Body != nil && len(fd.Body.List) == 4
+		if ok {
+			as, ok1 := fd.Body.List[0].(*ast.AssignStmt)
+			if1, ok2 := fd.Body.List[1].(*ast.IfStmt)
+			if2, ok3 := fd.Body.List[2].(*ast.IfStmt)
+			rs, ok4 := fd.Body.List[3].(*ast.ReturnStmt)
+			ok = ok1 && ok2 && ok3 && ok4 && len(as.Rhs) == 1 && fullExpr(as.Rhs[0]) == x.base &&
+				fullExpr(if1.Cond) == x.glob+">0&&"+x.glob+"!="+x.base && fullExpr(if2.Cond) == x.alt+">0" &&
+				len(rs.Results) == 1 && len(as.Lhs) == 1 && fullExpr(rs.Results[0]) == fullExpr(as.Lhs[0])
+			if ok {
+				a1, b1 := if1.Body.List[0].(*ast.AssignStmt)
+				a2, b2 := if2.Body.List[0].(*ast.AssignStmt)
+				ok = b1 && b2 && fullExpr(a1.Rhs[0]) == x.glob && fullExpr(a2.Rhs[0]) == x.alt
+			}
+		}
+		if !ok {
+			t.errf("%s: expected  use := %s; if %s > 0 && %s != %s { use = %s }; if %s > 0 { use = %s }; return use", x.fn, x.base, x.glob, x.glob, x.base, x.glob, x.alt, x.alt)
+		}
+		t.p("Definition %s : bool := %v. (* %s: %s, overridden by %s when > 0 and different, overridden by %s when > 0 *)\n", x.coq, ok, x.fn, x.base, x.glob, x.alt)
+	}
 	t.emitOrder("c16_wrapper_present_order", "solverWrapper.Present", []string{"activeChallenges[challengeKey(chal)]=", "sw.Solver.Present("}, []int{0, 1})
 	t.emitOrder("c16_wrapper_cleanup_order", "solverWrapper.CleanUp", []string{"delete(activeChallenges,challengeKey(chal))", "sw.Solver.CleanUp("}, []int{0, 1})
 	t.emitOrder("c16_dist_present_order", "distributedSolver.Present", []string{"dhs.storage.Store(", "dhs.solver.Present("}, []int{0, 1})
